@@ -35,7 +35,7 @@ import (
 type line struct {
 	Op  string `json:"op"`  // New | End | Free | acc | rej | dlv | dead | xclose | <action name>
 	T   string `json:"t"`   // logical thread
-	ID  int    `json:"id"`  // message id (caller rank*10 + k)
+	ID  int    `json:"id"`  // message id (stream*1000 + k; stream = caller rank)
 	Br  string `json:"br"`  // observed branch / reject reason / status
 	IDs []int  `json:"ids"` // batch contents (dlv, dead, WFlush)
 	MDs []int  `json:"mds"` // per-message metadata ids seen on the wire (dlv)
@@ -87,7 +87,7 @@ var _ remote.ContextPropagator = idPropagator{}
 // ---------------------------------------------------------------- scripted loopback receiver
 
 const (
-	modeOK = iota
+	modeOK        = iota
 	modeFailProto // handler answers with an internalpb.Error: the batch is not delivered
 	modeFailConn  // handler fails: the server closes the connection without a reply
 )
@@ -97,7 +97,7 @@ type tellServer struct {
 	host  string
 	port  int
 	mode  atomic.Int32
-	delay atomic.Int64 // nanoseconds the handler sleeps (stress)
+	delay atomic.Int64               // nanoseconds the handler sleeps (stress)
 	rnd   atomic.Pointer[func() int] // optional: mode chooser (stress)
 	tr    atomic.Pointer[tracer]
 	dec   remote.Serializer
@@ -256,15 +256,16 @@ var expectPoint = map[string]string{
 }
 
 type replayStats struct {
-	Behaviours int   `json:"behaviours"`
-	Runs       int   `json:"runs"`
-	Completed  int   `json:"completed"` // walks followed to their end
-	Diverged   int   `json:"diverged"`  // runs in which a Go select with several ready cases chose another branch
-	Drift      int   `json:"drift"`     // runs in which the real code was not where the model expects it
-	Watchdog   int   `json:"watchdog"`
-	Steps      int   `json:"steps"`
-	Events     int64 `json:"events"`
-	Unfinished int   `json:"unfinished"` // walks never completed within the retry budget
+	Behaviours int    `json:"behaviours"`
+	Runs       int    `json:"runs"`
+	Completed  int    `json:"completed"` // walks followed to their end
+	Diverged   int    `json:"diverged"`  // runs in which a Go select with several ready cases chose another branch
+	Drift      int    `json:"drift"`     // runs in which the real code was not where the model expects it
+	Watchdog   int    `json:"watchdog"`
+	Steps      int    `json:"steps"`
+	Events     int64  `json:"events"`
+	Unfinished int    `json:"unfinished"` // walks never completed within the retry budget
+	Aborted    bool   `json:"aborted"`    // gave up after repeated watchdog expiries (the real code hangs)
 	FirstDrift string `json:"first_drift"`
 }
 
@@ -284,7 +285,7 @@ func argS(x step, i int) string {
 func runWalk(b []step, srv *tellServer, tr tracer, maxBatch int, st *replayStats) string {
 	tr.put(line{Op: "New", B: maxBatch})
 	s := sched.New()
-	s.Watchdog = 20 * time.Second
+	s.Watchdog = 8 * time.Second
 	s.ControlAll()
 	s.AdoptAt("coal.run.select", "w")
 	s.DetachAt("coal.run.exit") // the writer's return: reported as Done with the step that leaves the loop
@@ -313,7 +314,7 @@ func runWalk(b []step, srv *tellServer, tr tracer, maxBatch int, st *replayStats
 		fatal("no coalescer")
 	}
 	r.vc = vc
-	wname, ok := s.WaitAdopted(20 * time.Second)
+	wname, ok := s.WaitAdopted(30 * time.Second)
 	if !ok {
 		fatal("writer goroutine was not adopted")
 	}
@@ -331,7 +332,7 @@ func runWalk(b []step, srv *tellServer, tr tracer, maxBatch int, st *replayStats
 				mu.Lock()
 				cancels[p] = cancel
 				mu.Unlock()
-				res := r.tell(ctx, p, rankOf(p)*10+k)
+				res := r.tell(ctx, p, rankOf(p)*1000+k)
 				cancel()
 				mu.Lock()
 				lastRet[p] = res
@@ -369,8 +370,8 @@ walk:
 		default:
 			t = argS(x, 0)
 		}
-		want := ""   // prescribed branch
-		got := ""    // observed branch
+		want := "" // prescribed branch
+		got := ""  // observed branch
 		id := 0
 		var ids []int
 		if x.A == "Cancel" {
@@ -459,7 +460,7 @@ walk:
 			got = want
 		}
 		if x.A == "Call" || x.A[0] == 'S' {
-			id = rankOf(t) * 10 // the message index is tracked by the trace specs
+			id = rankOf(t) * 1000 // the message index is tracked by the trace specs
 		}
 		tr.put(line{Op: x.A, T: t, ID: id, Br: got, IDs: ids, Q: r.vc.Queued()})
 		if got != want {
@@ -474,7 +475,7 @@ walk:
 		r.cl.Close()
 		closed.Store(true)
 	}
-	if !s.Join(30 * time.Second) {
+	if !s.Join(10 * time.Second) {
 		st.Watchdog++
 		if status == "ok" {
 			status = "watchdog"
@@ -509,6 +510,10 @@ func coalReplayMain(args []string) {
 	srv := startTellServer(dec)
 	st := &replayStats{}
 	for _, b := range behaviours {
+		if st.Watchdog >= 3 {
+			st.Aborted = true // the code under test hangs again and again: judge what was recorded so far
+			break
+		}
 		st.Behaviours++
 		done := false
 		for a := 0; a <= retries && !done; a++ {
@@ -617,7 +622,7 @@ func coalStressMain(args []string) {
 					if tmo[k-1] == 0 {
 						ctx, cancel = context.WithTimeout(ctx, 300*time.Microsecond)
 					}
-					r.tell(ctx, p, rankOf(p)*10+k)
+					r.tell(ctx, p, rankOf(p)*1000+k)
 					cancel()
 					sent.Add(1)
 				}
@@ -628,18 +633,24 @@ func coalStressMain(args []string) {
 		for sent.Load() < closeAt {
 			runtime.Gosched()
 		}
-		r.cl.Close()
 		doneCh := make(chan struct{})
-		go func() { wg.Wait(); close(doneCh) }()
-		select {
-		case <-doneCh:
+		go func() {
+			r.cl.Close()
+			wg.Wait()
 			// a RemoteTell that raced with Close may have made the client build a fresh coalescer: close again so that
 			// every writer goroutine has finished before the history is judged
 			r.cl.Close()
+			close(doneCh)
+		}()
+		select {
+		case <-doneCh:
 			tr.put(line{Op: "End", Q: 0})
 		case <-time.After(30 * time.Second):
 			stuck++
 			tr.put(line{Op: "Stuck"})
+		}
+		if stuck >= 3 {
+			break // the code under test hangs again and again: judge what was recorded so far
 		}
 	}
 	tr.put(line{Op: "New"})
